@@ -1,7 +1,7 @@
 """C16 — level-set length and path are exact for the piecewise-linear interpolant."""
 import numpy as np
 
-from .. import repo, core, gen, wire
+from .. import repo, core, gen, wire, extract
 from ..base import BaseCheck
 from lapy import TriaMesh
 
@@ -83,9 +83,14 @@ class Check(BaseCheck):
             "levels strictly between vertex values (one level and arrays of levels) x n_points; level_length for every case, level_path where "
             "the level set of the interpolant is a single open curve; distinct by hash of (mesh, function, level)")
     trusted = ["scipy.sparse.csgraph.shortest_path: exact graph distances (assumed; the model computes breadth-first distances)",
-               "np.interp / np.linspace as re-implemented by the model"]
+               "np.interp / np.linspace as re-implemented by the model",
+               "level_length is re-traced from the source on every run for two crossing patterns on the boundary of a generic tetrahedron and "
+               "bridged to the model by proof under the recorded path condition (Bridge/Level.lean); level_path is tied differentially only"]
     assumptions = ["PARTIAL: three-fold re-resampling only approximates equal spacing along the original curve; merged near-duplicate points may "
                    "shorten the polyline by up to k*1e-3"]
+
+    def translate(self):
+        extract.gen_level()
 
     def cases(self, seed, n):
         rng = gen.rng_for(seed, "c16")
